@@ -52,6 +52,7 @@ func (fr *frame) bumpAlloc(st *state) {
 }
 
 func (fr *frame) callWithArgs(st *state, c *ssa.CallCommon, instr ssa.Instruction, pos token.Pos, args []string) []string {
+	fr.curCall = c
 	fc := fr.fc
 	e := fc.e
 	sig := c.Signature()
@@ -105,8 +106,27 @@ func (fr *frame) callRepo(st *state, g *ssa.Function, ci *closureInfo, c *ssa.Ca
 	e := fc.e
 	key := e.keyOf(g)
 	ct := e.contracts.Funcs[key]
-	inline := (ct != nil && ct.Inline) || (ci != nil && (ct == nil || len(ct.Ensures)+len(ct.Requires) == 0))
+	inline := (ct != nil && ct.Inline) || ci != nil || fc.c.Inlines[key]
 	if inline && fr.depth < maxInlineDepth && !fr.recursive(g) {
+		if ct != nil && len(ct.Requires) > 0 {
+			// the preconditions of an expanded callee are still checked at the call
+			vars := map[string]TV{"fn": {T: e.u.fnID(key), Sort: "Int"}}
+			for i, p := range g.Params {
+				if i < len(args) {
+					vars[p.Name()] = TV{T: args[i], Sort: e.u.sortOf(p.Type()), Typ: p.Type()}
+					vars[fmt.Sprintf("a%d", i)] = vars[p.Name()]
+				}
+			}
+			env := &specEnv{fc: fc, fr: fr, vars: vars, st: st, old: st, pkg: shortPkg(fr.topFn().Pkg.Pkg.Path())}
+			anchor := fr.anchorText(pos, "call")
+			for i, rq := range ct.Requires {
+				label := rq.Label
+				if label == "" {
+					label = fmt.Sprintf("r%d", i+1)
+				}
+				fr.oblige(st, "pre", anchor+"."+label, pos, env.evalBool(rq.Expr, rq.Src), "precondition of "+key+": "+rq.Src)
+			}
+		}
 		return fr.inlineCall(st, g, ci, pos, args)
 	}
 	return fr.contractCall(st, g, ct, key, c, pos, args, nil)
@@ -130,6 +150,22 @@ func (fr *frame) inlineCall(st *state, g *ssa.Function, ci *closureInfo, pos tok
 		child.freeBind = ci.bindings
 	}
 	child.bindParams(args)
+	// closures passed as arguments stay known inside the inlined callee
+	if cc := fr.curCall; cc != nil {
+		for i, a := range cc.Args {
+			av := a
+			for {
+				ct, ok := av.(*ssa.ChangeType)
+				if !ok {
+					break
+				}
+				av = ct.X
+			}
+			if ci2 := fr.lookupClosure(av); ci2 != nil && i < len(g.Params) {
+				child.closures[g.Params[i]] = ci2
+			}
+		}
+	}
 	child.old = st.clone()
 	entry := st.clone()
 	child.run(entry, args)
@@ -194,7 +230,7 @@ func (fr *frame) mergeStates(ins []*state) *state {
 		if same {
 			res.heap[k] = fc.hget(ins[0], k)
 		} else {
-			res.heap[k] = sc.define("hm_"+shortKey(k), heapSort(fc.e.u, k), t)
+			res.heap[k] = sc.defineConst("hm_"+shortKey(k), heapSort(fc.e.u, k), t)
 		}
 	}
 	t := ins[len(ins)-1].alloc
@@ -247,18 +283,15 @@ func (fr *frame) contractCall(st *state, g *ssa.Function, ct *FuncContract, key 
 	var eff []string
 	if ct != nil && ct.HasMod {
 		eff = append(eff, ct.Modifies...)
+	} else if c != nil {
+		eff = append(eff, e.callEffects(fr.fn, c)...)
 	} else {
 		eff = append(eff, e.effectList(g)...)
 	}
-	if c != nil {
-		for _, a := range c.Args {
-			if mc, ok := a.(*ssa.MakeClosure); ok {
-				eff = append(eff, e.effectList(mc.Fn.(*ssa.Function))...)
-			}
-		}
-	}
 	eff = append(eff, extraEffects...)
-	fc.havocFramed(st, pre, eff)
+	// (callEffects has already expressed the callee's receiver-based effects in terms of this function's
+	// own parameters)
+	fc.havocFramedArgs(st, pre, eff, fr.ownParam)
 	fr.bumpAlloc(st)
 	res := fr.freshResults(st, g.Signature, g.Name())
 	if ct != nil {
@@ -283,6 +316,9 @@ func (fr *frame) contractCall(st *state, g *ssa.Function, ct *FuncContract, key 
 			}
 		}
 		for _, en := range ct.Ensures {
+			sc.assume(implies(st.reach, env.evalBool(en.Expr, en.Src)))
+		}
+		for _, en := range ct.Trusts {
 			sc.assume(implies(st.reach, env.evalBool(en.Expr, en.Src)))
 		}
 	}
@@ -365,7 +401,7 @@ func (fr *frame) specCall(st *state, ct *FuncContract, key, anchor string, pos t
 		}
 	}
 	pre := st.clone()
-	fc.havocFramed(st, pre, eff)
+	fc.havocFramedArgs(st, pre, eff, fr.ownParam)
 	fr.bumpAlloc(st)
 	res := fr.freshResults(st, sig, "dyn")
 	if ct != nil {
@@ -581,3 +617,13 @@ func (fr *frame) appendSlice(st *state, c *ssa.CallCommon, args []string) string
 }
 
 var _ = strings.TrimSpace
+
+// ownParam: the term of parameter j of the function this frame executes.
+func (fr *frame) ownParam(j int) string {
+	if j < len(fr.fn.Params) {
+		if t, ok := fr.regs[fr.fn.Params[j]]; ok {
+			return t
+		}
+	}
+	return ""
+}
